@@ -248,7 +248,7 @@ def r3_option_map_if_present(receivers):
     return rule
 
 
-def r14_iter_find(elem_type, ensures):
+def r14_iter_find(elem_type, ensures, written_for=None):
     """R14: S.iter().find(|x| P)  ->  slice_find(S.as_slice(), |x: &&T| -> (b: bool) ensures ENS { P })
     slice_find is a verified helper (prelude/slice_find.rs) whose postcondition is "first element satisfying the closure".
     ENS is the closure's ghost contract (checked by Verus against the real closure body P)."""
@@ -269,7 +269,8 @@ def r14_iter_find(elem_type, ensures):
             mopen = i + 6
             mclose = match[mopen]
             param, body = _closure(text, toks, match, mopen)
-            new = 'slice_find(%s.as_slice(), |%s: &&%s| -> (b: bool) ensures %s %s)' % (recv, param, elem_type, ensures, _as_block(body))
+            ens = ensures if not written_for or written_for == param else re.sub(r'(?<![\w.])%s\b' % re.escape(written_for), param, ensures)
+            new = 'slice_find(%s.as_slice(), |%s: &&%s| -> (b: bool) ensures %s %s)' % (recv, param, elem_type, ens, _as_block(body))
             text = text[:toks[rs].start] + new + text[toks[mclose].end:]
             u.rules['R14'] += 1
         return text
